@@ -427,6 +427,40 @@ def model(m, s, fi, t, fk, args, site):
                 if acc == TOP:
                     raise Stop("undecided", site, "fold closure outside the domain")
             return acc
+    if n in ("all", "any") and len(args) == 2 and (d.startswith("core::iter") or "Iterator" in d or "Iterator" in trait):
+        # short-circuiting test over a literal iteration space: the closure is run element by element in a sub-machine (captured
+        # references replaced by the values they designate); every combination of its answers becomes one alternative
+        it = as_iter(m, s, args[0])
+        f = A[1] if isinstance(A[1], Adt) else args[1]
+        if it is not None and isinstance(f, Adt) and str(f.name).startswith("closure:") and len(it.rest()) <= 16:
+            cbody = m.F.bodies.get(f.name[len("closure:"):])
+            if cbody is not None:
+                fz = Adt(f.name, f.variant, [m._freeze(s, x) for x in f.fields])
+                states = [((), None)]
+                for x in it.rest():
+                    xv = m._freeze(s, x) if isinstance(x, Ref) else x
+                    nxt = []
+                    for pc0, dec in states:
+                        if dec is not None:
+                            nxt.append((pc0, dec))
+                            continue
+                        from .bytex import Machine
+                        sub = Machine(m.F, m.policy, m.models)
+                        outs = sub.run(cbody, [Ref(0, 0), xv], holders=[fz])
+                        m.steps += sub.steps
+                        for o in outs:
+                            if o.kind != "return" or not (isinstance(o.value, bool) or (isinstance(o.value, T) and o.value != TOP)):
+                                raise Stop("undecided", site, "%s closure outside the domain" % n)
+                            # a comparison handed back as a term stands for both of its answers
+                            answers = [(o.value, ())] if isinstance(o.value, bool) else [(True, ((o.value, 1),)), (False, ((o.value, 0),))]
+                            for v, extra in answers:
+                                d2 = (False if (n == "all" and not v) else True if (n == "any" and v) else None)
+                                nxt.append((pc0 + tuple(o.pc) + extra, d2))
+                    states = nxt
+                    if len(states) > 256:
+                        raise Stop("undecided", site, "%s over too many alternatives" % n)
+                from .bytex import _Forks
+                return _Forks([((dec if dec is not None else (n == "all")), ("__pcs__", pc0), None) for pc0, dec in states])
     if n in ("next", "next_back") and len(args) == 1 and isinstance(args[0], Ref):
         it = as_iter(m, s, A[0]) if not isinstance(A[0], Iter) else A[0]
         if it is not None:
